@@ -343,7 +343,7 @@ def random_clifford(N, device='cpu'):
             gs[1] = g2
             random_clifford_(gs[2:,2:])
             for g in reversed(gens):
-                g = clifford_rotate_signless(g, gs)
+                gs[:] = clifford_rotate_signless(g, gs)
         return gs
     return random_clifford_(torch.zeros((2*N,2*N), device=device, dtype=torch.float32))
 
